@@ -73,6 +73,9 @@ def gen(rng, tier, i):
                                 plimit + 2, 0, 1])
                 k = max(0, k)
                 body = '\x1e'.join('4q%d.%d' % (n, j) for j in range(k))
+                if rng.random() < 0.4:
+                    import urllib.parse as _up
+                    body = 'd=' + _up.quote(body)     # JSONP form post
                 posts.append({'t': t, 'body': body})
             else:
                 if L == 0:
@@ -114,7 +117,7 @@ def run(plan, sched_values=None, sched_seed=0):
                 pr['post_at_limit'] = pr.get('post_at_limit', 0) + 1
             elif d > limit:
                 pr['post_over_limit'] = pr.get('post_over_limit', 0) + 1
-            if r.body.count(b'\x1e') + 1 > pl:
+            if r.body.count(b'\x1e') + r.body.count(b'%1E') + 1 > pl:
                 pr['packets_over_limit'] = pr.get('packets_over_limit',
                                                   0) + 1
         for conn in h.world.wsconns:
